@@ -161,6 +161,10 @@ func (e *env) hdrID(hash []byte) string {
 }
 
 func (e *env) tipStr() string {
+	if e.node.Chain.GetStore().Height() < 0 {
+		// the node holds no chain at all (every block, genesis included, was disconnected)
+		return "tip=- h=-1 td=none"
+	}
 	hash, h := e.node.Tip()
 	return fmt.Sprintf("tip=%s h=%d td=%s", e.hdrID(hash), h, bigS(e.node.TD(hash)))
 }
